@@ -19,6 +19,8 @@ def mech(flags) -> str:
         return ":class_shadows_template_import"
     if "typed_single_reference_wrapper" in flags:
         return ":typed_single_reference_wrapper"
+    if "caseless_class_name_equals_module_local" in flags:
+        return ":caseless_class_name_equals_module_local"
     if "package_with_unresolved_imports" in flags:
         return ":package_with_unresolved_imports"
     if "derived_local_captures_property" in flags:
@@ -35,6 +37,8 @@ def judge_roundtrip(vd, ev, a, res, witness_base, prop="C02", capture=None, pkg_
         flags = ["derived_local_captures_property"]  # document-level trigger (C18 mechanism), see _ops.derived_local_capture
     if capture == "class_shadows_template_import":
         flags = ["class_shadows_template_import"]  # document-level trigger (C01 mechanism), see harness.class_shadows_template_import
+    if capture == "caseless_class_name_equals_module_local":
+        flags = ["caseless_class_name_equals_module_local"]  # document-level trigger (C03 mechanism), see _ops.caseless_class_equals_module
     if capture == "typed_single_reference_wrapper":
         flags = ["typed_single_reference_wrapper"]  # document-level trigger (C10 mechanism), see _ops.typed_reference_wrapper
     w = dict(witness_base, cls=a["cls"], value=a["value"], label=x.get("label"), flags=flags)
@@ -112,6 +116,9 @@ def main() -> int:
         capture = derived_local_capture(r.get("manifest") or {})
         if capture:
             run.ev.count("documents_with_derived_local_capture_trigger")
+        from ._ops import caseless_class_equals_module
+        if not capture and caseless_class_equals_module(r.get("manifest") or {}):
+            capture = "caseless_class_name_equals_module_local"
         from ._ops import typed_reference_wrapper
         if not capture and typed_reference_wrapper(j["doc"]):
             capture = "typed_single_reference_wrapper"
